@@ -64,6 +64,7 @@ type Explorer struct {
 	Observed         []string // concrete-mode observations
 	PanicsSeen       []string
 	RingUsed         bool
+	BoundaryStops    int
 	OneShotTimeoutMs int
 	OneShotQueries   int
 	OneShotDecided   int
@@ -100,11 +101,12 @@ type Ctx struct {
 	namedSet map[string]bool
 	dead     bool
 
-	lastPanic  *PanicV
-	eof        *ErrV
-	watchSlots map[*Value]string
-	NoMerge    bool
-	spec       int
+	lastPanic      *PanicV
+	eof            *ErrV
+	watchSlots     map[*Value]string
+	NoMerge        bool
+	stopAtBoundary bool
+	spec           int
 	// frame monitor
 	protected map[*Shadow]string
 	writes    []string
@@ -434,6 +436,12 @@ func (c *Ctx) concretize(t *smt.Term, why string) *smt.Term {
 	var vals []*smt.Term
 	var blocks []*smt.Term
 	for {
+		if len(vals) > maxConcretize && c.stopAtBoundary {
+			// phase A: the value is needed concretely (gorgonia boundary) but ranges over a huge
+			// domain: everything gonnx did with it up to here has been checked; stop quietly
+			c.E.BoundaryStops++
+			panic(pathEnd{})
+		}
 		if len(vals) > maxConcretize {
 			panic(c.abort("concretisation of %s: more than %d feasible values (%s)", st.Show(t), maxConcretize, why))
 		}
